@@ -152,6 +152,14 @@ impl Sub<u64> for ClockTime {
 	type Output = ClockTime;
 
 	fn sub(self, ticks: u64) -> Self::Output {
+		// saturate at zero instead of overflowing
+		if ticks > self.ticks {
+			return Self {
+				clock: self.clock,
+				ticks: 0,
+				fraction: 0.0,
+			};
+		}
 		Self {
 			clock: self.clock,
 			ticks: self.ticks - ticks,
@@ -162,7 +170,7 @@ impl Sub<u64> for ClockTime {
 
 impl SubAssign<u64> for ClockTime {
 	fn sub_assign(&mut self, ticks: u64) {
-		self.ticks -= ticks;
+		*self = *self - ticks;
 	}
 }
 
